@@ -32,6 +32,9 @@ def main(argv=None):
         from .rules.common import pins_rule, signature_rule
         chk.guard(signature_rule, chk)
         chk.guard(pins_rule, chk)
+        from .ownership import memo_rule
+        from .rules.common import anchored_files
+        chk.guard(memo_rule, chk, anchored_files().get(prop, []))
         if chk.thorough and hasattr(mod, "run_thorough"):
             mod.run_thorough(chk)
         rc = chk.finish()
